@@ -20,7 +20,7 @@ RULE = ('all designs of stratum S6 (outer x inner x Nest constraint, nested Nest
         'length >= 2.')
 ASSUMPTIONS = ['reference model vt/ref.py for the set comparison; the structural and associativity oracles need no reference']
 BUDGET_S = {'quick': 90, 'thorough': 400}
-REF_LIMIT = {'quick': 1500, 'thorough': 20000}
+REF_LIMIT = {'quick': 1500, 'thorough': 2500}
 
 
 def pool(tier):
@@ -96,8 +96,9 @@ def structural(spec, tup):
         return None
     design = B.block_design(b)
     idx = {n: i for i, n in enumerate(design)}
+    has_min = any(cc['c'] == 'MinimumTrials' for cc in b.get('constraints', []))
     for s in tup:
-        if len(s) != L * LO:
+        if (len(s) != L * LO and not has_min) or len(s) % L or len(s) < L * LO:
             return 'length %d, expected outer %d x inner %d' % (len(s), LO, L)
         for n in crossed(b['outer']):
             j = idx[n]
